@@ -12,6 +12,7 @@ func init() {
 	vRegister("VH_C08_encode_rune", VH_C08_encode_rune)
 	vRegister("VH_C08_decode_pair", VH_C08_decode_pair)
 	vRegister("VH_C08_transformers", VH_C08_transformers)
+	vRegister("VH_C03_gsm7_decoder", VH_C03_gsm7_decoder)
 }
 
 // 3GPP TS 23.038 6.2.1 default alphabet (transcribed independently of the library's tables);
@@ -82,8 +83,7 @@ func VH_C08_pack() {
 	for k := 0; 8*k+7 < n-1; k++ {
 		mid = vOr(mid, vAnd(s[8*k+7] == 0, s[8*k+6] < 0x40))
 	}
-	vKnown("KF-C08-unpack-drops-zero-septet-mid-message", "C08.unpack.*", mid)
-	vKnown("KF-C08-unpack-empty-panics", "panic", n == 0)
+	_ = mid
 	u := Unpack(p)
 	vObserve("unpacked", u)
 	vAssert("C08.unpack.roundtrip", vEqBytes(u, s))
@@ -94,7 +94,6 @@ func VH_C08_pack() {
 func VH_C08_unpack_raw() {
 	n := vParam("n")
 	p := vBytes("p", n)
-	vKnown("KF-C08-unpack-empty-panics", "panic", n == 0)
 	u := Unpack(p)
 	vObserve("unpacked", u)
 	// number of septets is floor(8n/7), possibly one fewer per the padding rules
@@ -238,6 +237,24 @@ func VH_C08_transformers() {
 	vAssert("C08.transform.decoder.err-agrees", (tderr == nil) == (derr == nil))
 	if derr == nil && tderr == nil {
 		vAssert("C08.transform.decoder.agrees", vEqBytes(gotDec, wantDec))
+	}
+	vReach("end")
+}
+
+// C03: the decoding transformer on arbitrary octets: a value or an error, never a panic.
+func VH_C03_gsm7_decoder() {
+	n := vParam("n")
+	packed := vParam("packed") == 1
+	data := vBytes("in", n)
+	vBudget(3000000, true)
+	out, _, err := transform.Bytes(GSM7(packed).NewDecoder(), data)
+	vObserveErr("err", err)
+	if !packed {
+		ref, rerr := Decode(data)
+		vAssert("C03.gsm7.decoder.agrees-with-Decode", (err == nil) == (rerr == nil))
+		if err == nil && rerr == nil {
+			vAssert("C03.gsm7.decoder.same-text", vEqBytes(out, ref))
+		}
 	}
 	vReach("end")
 }
